@@ -624,7 +624,22 @@ class E2ESuite(Suite):
                                 full = ["/venv/bin/python", HELPER, str(st), outhex, str(rep)] + list(args)
                                 signal.alarm(90)
                                 try:
-                                    if kind == "exec":
+                                    if kind == "patharg":
+                                        # a Path argument is quoted like a string argument
+                                        pa = [linux.Path(m, a) for a in args]
+                                        rc, out = m.exec("/venv/bin/python", HELPER, str(st), outhex, str(rep), *pa)
+                                        res.append([0, rc, out])
+                                    elif kind == "redir":
+                                        # stdout redirected into a file whose name needs quoting
+                                        target = f"/tmp/tbot-verif-c01-{os.getpid()}-{len(res)} x'y"
+                                        m.exec0("printf", "%s", args[0], linux.RedirStdout(linux.Path(m, target)))
+                                        try:
+                                            content = open(target, "rb").read().decode("utf-8", "replace")
+                                        finally:
+                                            with contextlib.suppress(OSError):
+                                                os.unlink(target)
+                                        res.append([0, 0, content])
+                                    elif kind == "exec":
                                         rc, out = m.exec(*full)
                                         res.append([0, rc, out])
                                     elif kind == "exec0":
@@ -661,6 +676,12 @@ class E2ESuite(Suite):
                 if r != [2, 4]:
                     fails.append(f"{kind} with a forbidden byte in {args!r} gave {r!r} instead of IllegalDataException")
                 continue
+            if kind == "redir":
+                if r != [0, 0, args[0]]:
+                    fails.append(f"real shell: printf %s {args[0]!r} redirected into a file gave {r!r}")
+                continue
+            if kind == "patharg":
+                kind = "exec"
             payload = bytes.fromhex(outhex) * rep
             raw = ("|".join(a.encode("utf-8").hex() for a in args) + "\n").encode() + payload
             want_out = sc.py_text(raw.replace(b"\n", b"\r\n"))      # the tty's ONLCR, then the documented newline normalisation
@@ -686,6 +707,11 @@ class E2ESuite(Suite):
     def gen(self, tier, rng):
         n = 60 if tier == "quick" else 600
         fixed = [["a b", "$x", "`id`", "!x", "*", "a\nb", "", "ä€", "\\", "'", "\"", "^x\n^y", "-n"], ["\x01"], ["\x1b[0m", "x"], ["a\x02b\x05"], ["\n^a^b"], ["~", "#", "{a,b}"]]
+        for ash in (False, True):
+            yield {"ash": ash, "chunk": 4096, "calls": [["patharg", ["/tmp/x y", "/a'b/c", "rel/$HOME"], 0, "", 1],
+                                                         ["redir", ["text with 'quotes' and $vars"], 0, "", 1],
+                                                         ["redir", [""], 0, "", 1],
+                                                         ["exec", ["after"], 0, "", 1]]}
         for i in range(n):
             ash = i % 2 == 1
             calls = []
